@@ -18,16 +18,25 @@ from . import fistr_common as X
 
 PROP = 'C01'
 LEAN_MODULES = ['Femio.Props.C01']
-THEOREMS = ['C01_codes_inverse', 'C01_prism_perm_involutive', 'C01_orientation', 'C01_orientation_volume_affine',
-            'C01_prism_unpermuted_flips', 'C01_row_roundtrip', 'C01_float_roundtrip', 'C01_blocks_roundtrip',
-            'C01_roundtrip_partial', 'C01_format_insensitive_blank_comment', 'C01_format_insensitive_split',
-            'C01_format_insensitive_whitespace_partial']
+THEOREMS = ['C01_codes_inverse', 'C01_prism_perm_involutive', 'C01_orientation', 'C01_prism_unpermuted_inverted',
+            'C01_orientation_volume_affine', 'C01_prism_unpermuted_flips', 'C01_float_roundtrip', 'C01_row_roundtrip',
+            'C01_blocks_roundtrip', 'C01_roundtrip_partial', 'C01_roundtrip_example',
+            'C01_format_insensitive_blank_comment', 'C01_format_insensitive_split',
+            'C01_format_insensitive_whitespace_partial', 'C01_format_insensitive_bang_fixed',
+            'C01_bang_counterexample_upstream', 'C01_split_egroup_counterexample_upstream']
 PARTIAL = [
-    'C01_roundtrip_partial: full statement readMsh (writeMsh m) = some (canon m) is proved for meshes whose !NODE / '
-    '!ELEMENT / !EGROUP / !INITIAL CONDITION blocks are written (groups non-empty, generic !EGROUP branch, no '
-    'section/material); the section + material lines and remove_useless_nodes are covered by the correspondence only',
+    'C01_roundtrip_partial: the full statement (Femio.C01.RoundtripStatement: readMsh (writeMsh m) = the id-keyed maps of m '
+    'restricted to referenced nodes, for every well-formed m) is proved for the row lists of the !NODE / !ELEMENT (both '
+    'branches, prism permutation) / !INITIAL CONDITION sections, for the header scan of any block sequence '
+    '(C01_blocks_roundtrip) and kernel-evaluated on one complete mixed file (C01_roundtrip_example); that blocksOf finds '
+    'exactly the written sections for symbolic group/material names, the section/material lines and '
+    'remove_useless_nodes are tied by the correspondence only',
+    'C01_format_insensitive_split: proved for extract_data(concatenate=True) sections (!NODE, uniform !ELEMENT); the '
+    'mixed-element branch is covered by the correspondence; for !EGROUP the code violates it (finding G6)',
     'C01_format_insensitive_whitespace_partial: G3 is proved per field (parseDec / parseNatTok ignore surrounding '
     'blanks; header captures ignore blanks after commas), not lifted to whole files',
+    'C01_orientation_volume_affine: signed-volume equality is proved for affine prisms (for non-planar quads the two '
+    'tet decompositions differ); the geometry-independent statement is the face-cycle theorem C01_orientation',
     'decimal <-> binary rounding of %.12E / float() is runtime (trusted: correctly rounded); arbitrary doubles are '
     'covered by the oracle to 13 digits only',
 ]
@@ -297,8 +306,9 @@ def model_write(ctx, case):
     return t.lst(lambda: C.unesc(t.tok()))
 
 
-def model_read(ctx, lines):
-    rep = ctx.driver.ask('c01.read ' + C.enc_list(lines, C.esc))
+def model_read(ctx, lines, cfg=(0, 0)):
+    """cfg = (bang, merge): Femio.Fistr.ReadCfg, upstream femio = (0, 0)"""
+    rep = ctx.driver.ask(f'c01.read {cfg[0]} {cfg[1]} ' + C.enc_list(lines, C.esc))
     t = C.Toks(rep)
     if t.tok() != 'ok':
         raise RuntimeError('driver: ' + rep[:200])
@@ -605,15 +615,31 @@ def run_variant(ctx, case, d, lines, got, kind, finding=True):
         report(signature('format', kind),
                f'{kind} variant of the written file cannot be read: {e!r}', inp, repr(e))
     if ctx.driver is not None:
-        mv = model_read(ctx, v)
-        if gv is None:
-            if mv is not None:
-                ctx.disagree(f'msh read ({kind}): real reader raises, model does not', inp, 'raises', 'ok')
+        flag = {'G5': 'bang', 'G6': 'merge'}.get(kind)
+        if flag is None:
+            check_model(ctx, inp, kind, gv, model_read(ctx, v), report=True)
         else:
-            k = 'model-raises' if mv is None else same_read(gv, mv)
-            if k:
-                ctx.disagree(f'msh read ({kind}): {k}', inp, gv.get(k), None if mv is None else mv.get(k))
+            # Cfg pattern: which repair configuration of the model reproduces the tree on this stream?
+            tally = ctx.extra.setdefault('cfg_mismatches', {'bang': {'0': 0, '1': 0}, 'merge': {'0': 0, '1': 0}})
+            for val in (0, 1):
+                cfg = (val, 0) if flag == 'bang' else (0, val)
+                if check_model(ctx, inp, kind, gv, model_read(ctx, v, cfg), report=False):
+                    tally[flag][str(val)] += 1
+                    ctx.extra.setdefault('cfg_mismatch_sample', {}).setdefault(f'{flag}={val}', inp if len(str(inp)) < 20000 else None)
     return gv
+
+
+def check_model(ctx, inp, kind, gv, mv, report):
+    """model reader vs real reader on one text; returns a description of the mismatch or None"""
+    bad = None
+    if gv is None:
+        if mv is not None:
+            bad = 'real reader raises, model does not'
+    else:
+        bad = 'model-raises' if mv is None else same_read(gv, mv)
+    if bad and report:
+        ctx.disagree(f'msh read ({kind}): {bad}', inp, 'raises' if gv is None else gv.get(bad), None if mv is None else mv.get(bad))
+    return bad
 
 
 def outside_streams(ctx, n):
@@ -680,6 +706,15 @@ def run(ctx):
         run_variant(ctx, case, d, lines, got, kind, finding=FINDING_STREAMS[kind])
         done[kind] += 1
     outside_streams(ctx, ctx.n(6, 40))
+    # which ReadCfg does the working tree implement?  (upstream: bang=0, merge=0; both repairs: 1, 1)
+    if ctx.driver is not None:
+        det = {}
+        for flag, t in ctx.extra.get('cfg_mismatches', {}).items():
+            ok = [int(v) for v, n_bad in t.items() if n_bad == 0]
+            det[flag] = ok
+            if len(ok) == 0:
+                ctx.disagree(f'no ReadCfg value of `{flag}` reproduces the reader on the G5/G6 stream', {'tally': t}, None, None)
+        ctx.extra['cfg_detected'] = det
 
 
 def replay(ctx, obj):
